@@ -147,6 +147,12 @@ func deepCopy(v Value) Value {
 func (m *Machine) marshalOpaque(kind string, payload Value, typ types.Type) Slice {
 	tb := m.tb
 	snap := deepCopy(payload)
+	// a payload that is term-for-term the one encoded before gets the same bytes (the codec is a function)
+	for _, prev := range m.marsh {
+		if prev.kind == kind && m.structEq(prev.payload, snap).True() {
+			return m.mkBytes(prev.bytes)
+		}
+	}
 	bs := make([]*Term, opaqueLen)
 	for i := range bs {
 		bs[i] = tb.Fresh("enc."+kind, 8)
